@@ -37,6 +37,7 @@ static J gen_history(Chooser &ch, bool two_d)
       o.min_features = 1; o.max_features = 5;
       o.operations = true; o.model_ranges = true; o.force_surface = true; o.global_constants = ch.flip(); o.water = true;
       o.cross_section = two_d ? 2 : 1;
+      o.depth_surfaces = true; // point-wise max depths: parsed with the world's own coordinate system, whatever was parsed before
       g::GW w = (siblings && i == 1) ? gws[0] : g::gen_world(ch, o);
       if (siblings && i == 1) perturb_parameters(w.root);
       if (!siblings)
